@@ -316,3 +316,45 @@ def call_route_pass(ctx):
                     continue
                 if not same({k: v for k, v in got.items() if abs(v) > 1e-12}, {k: v for k, v in exp.items() if abs(v) > 1e-12}, exact=False):
                     ctx.violation('call-differs', case, exp, got, key='call-route:powers-of-sums')
+    # (3) results of *mixed* symbolic multivectors (some coefficients contain no symbol: ints, Fractions, floats, complex) called
+    # several times, with plain numbers and with integer / float arrays: every result - inspected only after all calls were
+    # made - holds the value of its own arguments, constants keep their exact value whatever the dtype of the arguments
+    import numpy as np
+    alg = make_algebra([1, 1, 1])
+    consts = [Fraction(3, 2), 1.5, 2, Fraction(1, 2), 0.25 + 0.5j]
+    for trial in range(4 if ctx.quick else 20):
+        ks = rng.sample(range(8), 3)
+        const = rng.choice(consts)
+        coeffs = ['s', const, 's*t + 1']
+        rng.shuffle(coeffs)
+        m0 = alg.multivector(keys=tuple(ks), values=list(coeffs))
+        other = alg.multivector(keys=tuple(rng.sample(range(8), 2)), values=[2, Fraction(1, 3)])
+        for nm, m in (('x', m0), ('x.cp(y)', m0.cp(other)), ('x + y', m0 + other)):
+            fs = sorted(getattr(m, 'free_symbols', []), key=lambda sy: sy.name)
+            if not fs:
+                continue
+            argsets = [{sy.name: rng.randint(1, 9) for sy in fs}, {sy.name: rng.randint(1, 9) for sy in fs},
+                       {sy.name: np.array([1, 2, 4]) + i for i, sy in enumerate(fs)}, {sy.name: np.array([0.5, 2.0]) * (i + 1) for i, sy in enumerate(fs)}]
+            results = []
+            case = {'keys': ks, 'coefficients': [str(c) for c in coeffs], 'multivector': nm}
+            ctx.case(case, tag='call-route:mixed-constants')
+            try:
+                for a in argsets:
+                    results.append(m(**a))
+            except Exception as e:
+                ctx.violation('call-raises', case, 'a multivector', repr(e)[:200], key='call-route:mixed:raises')
+                continue
+            for a, r in zip(argsets, results):
+                bad = None
+                for k, c in zip(m.keys(), m.values()):
+                    got = np.asarray(dict(zip(r.keys(), r.values())).get(k, 0), dtype=complex)
+                    f = sympy.lambdify([sympy.Symbol(n) for n in a], sympy.sympify(c), 'numpy')
+                    exp = np.asarray(f(*[np.asarray(v, dtype=complex) for v in a.values()]), dtype=complex)
+                    if not np.allclose(np.broadcast_to(got, np.broadcast(got, exp).shape), np.broadcast_to(exp, np.broadcast(got, exp).shape), rtol=1e-9, atol=1e-12):
+                        bad = (k, exp.tolist(), got.tolist())
+                        break
+                if bad:
+                    ctx.violation('call-differs', {**case, 'arguments': {n: (v.tolist() if hasattr(v, 'tolist') else v) for n, v in a.items()},
+                                                   'blade': bad[0], 'inspected': 'after all calls of this multivector were made'},
+                                  str(bad[1])[:200], str(bad[2])[:200], key='call-route:mixed-constants')
+                    break
